@@ -100,6 +100,12 @@ for _n in ("width", "height", "size", "cols", "rows", "span", "colspan", "tabind
     ATTRIBUTE_PROBES.append({"kids": [_T("k")], "dicts": [[[_n, {"t": "num", "v": 300.0}]]], "kw": []})
 
 
+# multi-line / tab-separated / padded text under names whose values are often written over several lines: passed through untouched
+for _n in ("d", "points", "viewBox", "style", "title", "alt", "value", "placeholder", "srcset", "class_", "transform", "content", "data_json", "onclick", "values", "keyTimes"):
+    for _v in ("M 0 0\n  L 5 5\n  Z", "a\tb", "  padded  ", "x\r\ny", "one  two   three"):
+        ATTRIBUTE_PROBES.append({"kids": [], "dicts": [], "kw": [[_n, S_(_v)]]})
+
+
 # sizes ordinary calls never reach
 # things that are not children: alone, and next to valid arguments - refused by every function exactly as Tag() refuses them
 INVALID_PROBES = []
@@ -124,6 +130,7 @@ LARGE_PROBES = [
     {"kids": [_T("t%d" % k) for k in range(2100)], "dicts": [], "kw": []},
 ]
 _LARGE_BUILT = {}
+_ATTR_ONLY_BUILT = {}
 LARGE_PROBE = {"kids": [_T("t%d" % k) if k % 2 else gen.TAG("i", _T("k"), ws=False) for k in range(1600)],
                "dicts": [[["data-d%d" % k, S_("v%d" % k)] for k in range(90)]], "kw": [["data_k%d" % k, S_("w%d" % k)] for k in range(120)]}
 
@@ -149,7 +156,7 @@ def build_args(a):
     return pos, kw
 
 
-def check_function(ctx, modname, name, f, inline, n_random):
+def check_function(ctx, modname, name, f, inline, n_random, fn_index=0):
     rng = ctx.rng
     wit = {"module": modname, "function": name}
     ctx.count("functions_checked")
@@ -259,10 +266,37 @@ def check_function(ctx, modname, name, f, inline, n_random):
     if _zlib.crc32(name.encode()) % 9 == 0:
         probes = probes + [LARGE_PROBE]   # (one function in nine gets the very large call too; with a random _add_ws form)
     for k_, args in enumerate(probes + [rand_args(rng) for _ in range(n_random)]):
+      if k_ < n_fixed and ctx.nshards > 1 and (k_ + fn_index) % ctx.nshards != ctx.shard:
+        continue   # (sharded runs - the thorough tier, the alternative passes - split the fixed probes between them)
       # the whitespace flag left out, and given explicitly either way (the first group of fixed probes all three ways, the others in rotation)
       for ws_mode in ((None, True, False) if k_ < n_all3 else ((None, True, False)[k_ % 3],) if k_ < n_fixed else (rng.choice([None, None, True, False]),)):
         w2 = dict(wit, args=args, _add_ws=ws_mode)
         ws_kw = {} if ws_mode is None else {"_add_ws": ws_mode}
+        if k_ < n_fixed and not args["kids"]:
+            # attribute-only probe: the argument values are immutable, one set of argument objects serves both calls, and the
+            # results are compared field by field (names in order, values with their types, flag, no children)
+            if id(args) not in _ATTR_ONLY_BUILT:
+                _ATTR_ONLY_BUILT[id(args)] = build_args(args)
+            pos, kw = _ATTR_ONLY_BUILT[id(args)]
+            try:
+                want, want_exc = ht.Tag(name, *pos, _add_ws=default if ws_mode is None else ws_mode, **kw), None
+            except Exception as e:
+                want, want_exc = None, e
+            try:
+                got, got_exc = f(*pos, **ws_kw, **kw), None
+            except Exception as e:
+                got, got_exc = None, e
+            ctx.count("oracle.pass_through")
+            ctx.count("oracle.pass_through_attribute_only")
+            if (want_exc is None) != (got_exc is None) or (want_exc is not None and type(want_exc) is not type(got_exc)):
+                ctx.violation("pass-through-exception-differs", "%s.%s(*a, **k): %r vs Tag(): %r" % (modname, name, got_exc, want_exc), w2)
+                return
+            if want is not None:
+                sig_ = lambda t_: (type(t_) is ht.Tag, t_.name, t_.add_ws, len(t_.children), [(k2, type(v2).__name__, str(v2)) for k2, v2 in t_.attrs.items()])   # noqa: E731
+                if sig_(got) != sig_(want):
+                    ctx.violation("pass-through-differs", "%s.%s(**k) differs from Tag(%r, _add_ws=%r, **k): %r vs %r" % (modname, name, name, default, sig_(got)[1:], sig_(want)[1:]), w2)
+                    return
+            continue
         try:
             pos, kw = build_args(args)
             want = ht.Tag(name, *pos, _add_ws=default if ws_mode is None else ws_mode, **kw)
@@ -331,7 +365,7 @@ def run(ctx):
     for modname, fs in (("tags", hf), ("svg", sf)):
         for i, (name, f) in enumerate(fs):
             # every shard checks every function's fixed obligations; random argument lists are split
-            ctx.guard(check_function, ctx, modname, name, f, inline, per_fn, witness={"module": modname, "function": name})
+            ctx.guard(check_function, ctx, modname, name, f, inline, per_fn, i, witness={"module": modname, "function": name})
             ctx.state("functions", (modname, name))
     ctx.require("oracle.pass_through", 179)
     ctx.require("functions_checked", 179)
